@@ -46,6 +46,10 @@ CHECKS = {
    text='concrete structure, symbolic content: a pinned pre-pass through the real parser/encoder discovers which bytes of each fixture steer control flow; every other byte becomes a solver variable; the real eager and lazy parsers, the encoder and the JSON conversion then run on that buffer and field trees / byte strings are compared term by term; edit operations are checked by an independent box walker',
    note='box structures are those of the fixture files (moov, encrypted moov, HEVC, E-AC-3, text, audio and text segments); symbolic values range over the parser image (every value the parser can produce); at most 1500 symbolic bytes per file; CRC/struct/bitstring/base64 are environment models validated differentially',
    ref='DESIGN.md 5 C04'),
+ 'C05': dict(
+   text='partial claim, kernel level: the manifest, patch and include templates are scanned on every run for output expressions; for every sink fed by a hostile string class (title, licence URLs, request URL / forwarded query values / host name, UTCTiming value, event value) the XML context and the escaping chain (real xmlSafe filter, markupsafe autoescape by file name, or none) are derived from the template text, the chain is executed on a symbolic string and the rendered text is proved harmless in that context (no <, every & starts a reference, no double quote inside an attribute, no ]]>); dict_to_cgi_params on symbolic free text must not introduce $ into URL templates',
+   note='Jinja rendering of whole documents, required attributes per MPD@type, id uniqueness and non-empty AdaptationSets are outside (database content); strings are XML 1.0 characters up to U+007E, length 1..3 (quick); xs:duration / xs:dateTime text is C19, non-negative timing values C08; counterexamples are judged by expat on the real filter output; one known finding (unquoted $ in forwarded free text)',
+   ref='DESIGN.md 5 C05'),
  'C06': dict(
    text='Representation.load executed on a symbolic parsed-file layout (symbolic box sizes, sample durations, first sequence number and decode time), SegmentList tiling, VOD $Number$/$Time$ addressing through the real handler kernel with symbolic startNumber and requested number, and the mediaPresentationDuration text round trip with a symbolic media duration',
    note='indexing: 2..4 fragments (quick), optional sidx/free tail boxes, three tfdt modes; VOD addressing on the layout catalogue; moov is the parsed moov of a fixture; bitrate/frame-rate quotients are over-approximated (not part of the obligations)',
